@@ -12,11 +12,26 @@ Auths == {<<>>, <<47, 47, 104, 46, 99>>, <<47, 47, 117, 64, 104, 46, 99>>, <<47,
 RECURSIVE SeqsOf(_, _)
 SeqsOf(A, n) == IF n = 0 THEN {<<>>} ELSE LET s == SeqsOf(A, n - 1) IN s \cup {Append(x, u) : x \in {y \in s : Len(y) = n - 1}, u \in A}
 QBody == {<<97>>, <<37, 52, 49>>, <<43>>, <<59>>, <<>>, <<37, 50, 53>>}
-Init == /\ scheme \in Schemes /\ auth \in Auths
+Core == /\ scheme \in Schemes /\ auth \in Auths
         /\ segs \in SeqsOf({<<97>>, <<37, 52, 49>>, <<46>>, <<>>, <<43>>, <<59, 120>>}, 2)
         /\ pairs \in SeqsOf({<<k, v>> : k \in {<<97>>, <<37, 52, 49>>, <<43>>}, v \in QBody \cup {<<61>>}}, 1)
                    \cup {<< <<k, v>>, <<k2, v2>> >> : k \in {<<97>>}, v \in {<<>>, <<59>>, <<61>>}, k2 \in {<<97>>, <<43>>}, v2 \in {<<37, 52, 49>>, <<61>>}}
         /\ frag \in {<<>>, <<102>>, <<37, 52, 49>>, <<47, 63>>}
+(* escapes of control characters, blank and NUL in every component (the minimal rendering writes them raw) *)
+Ctl == {<<97, 37, 48, 65, 98>>, <<37, 50, 48>>, <<37, 48, 48, 120>>, <<37, 48, 68>>, <<97>>}         \* a%0Ab  %20  %00x  %0D  a
+Escapes == /\ scheme = <<104, 116, 116, 112>> /\ auth \in {<<47, 47, 104, 46, 99>>, <<47, 47, 117, 37, 48, 65, 64, 104, 46, 99>>}
+           /\ segs \in SeqsOf(Ctl, 2)
+           /\ pairs \in {<<>>} \cup {<< <<k, v>> >> : k \in Ctl, v \in Ctl \cup {<<61>>}}
+           /\ frag \in Ctl \cup {<<>>}
+(* host shapes: empty labels, IPv4, upper case, U-label and A-label, empty port, empty userinfo *)
+Hosts == {<<47, 47, 97, 46, 46, 98>>, <<47, 47, 49, 46, 50, 46, 51, 46, 52>>, <<47, 47, 72, 46, 67>>, <<47, 47, 233, 46, 99>>,
+          <<47, 47, 120, 110, 45, 45, 56, 99, 97, 46, 99>>, <<47, 47, 104, 46, 99, 58>>, <<47, 47, 64, 104, 46, 99>>, <<47, 47, 104, 46>>,
+          <<47, 47, 49, 46, 50, 46, 51, 46, 52, 58, 56, 48>>, <<47, 47>>}
+HostRows == /\ scheme \in {<<104, 116, 116, 112>>, <<>>} /\ auth \in Hosts
+            /\ segs \in {<<>>, << <<97>> >>, << <<>>, <<97>> >>}
+            /\ pairs \in {<<>>, << <<<<97>>, <<98>>>> >>}
+            /\ frag \in {<<>>, <<102>>}
+Init == /\ (Core \/ Escapes \/ HostRows)
         (* RFC 3986 3.3: without an authority the path cannot begin with "//" *)
         /\ (auth = <<>> => ~(Len(segs) >= 2 /\ Head(segs) = <<>>))
 Next == UNCHANGED vars
